@@ -111,7 +111,7 @@ func stackOf() string {
 
 func countWild(v model.Val, n *int) {
 	switch v.T {
-	case "wild", "ptr", "mapss", "mapsi", "mapsf", "mapsb", "int8", "int16", "uint", "uint8", "uint16", "uint32", "uint64", "float32":
+	case "wild", "ptr", "mapss", "mapsi", "mapsf", "mapsb", "mapsi64", "nmapss", "nmapsi", "nmapsf", "nmapsb", "nmap", "int8", "int16", "uint", "uint8", "uint16", "uint32", "uint64", "float32":
 		*n++
 	}
 	for _, e := range v.L {
@@ -146,7 +146,7 @@ func wildify(rt *rapid.T, v *model.Val, p int) {
 		wildify(rt, &v.M[i].V, p)
 		if v.M[i].V.T != was {
 			switch v.T {
-			case "mapss", "mapsi", "mapsf", "mapsb":
+			case "mapss", "mapsi", "mapsf", "mapsb", "mapsi64", "nmapss", "nmapsi", "nmapsf", "nmapsb":
 				v.T = "map" // typed maps cannot hold wild values
 			}
 		}
